@@ -18,8 +18,11 @@ Theorem C06_component_equals_partial : SpecRoutes.C06_component_equals_partial.
 Proof. exact component_equals_partial_R. Qed.
 Theorem C06_at_equals_located : SpecRoutes.C06_at_equals_located.
 Proof. exact at_equals_located_R. Qed.
+Theorem C06_at_located_same_outcome : SpecRoutes.C06_at_located_same_outcome.
+Proof. exact at_located_same_outcome. Qed.
 
 Print Assumptions C06_located.
 Print Assumptions C06_early.
 Print Assumptions C06_component_equals_partial.
 Print Assumptions C06_at_equals_located.
+Print Assumptions C06_at_located_same_outcome.
